@@ -10,7 +10,7 @@ import rng as R
 import circ_util as CU
 
 RULE = ('histories: random walks of public state-changing operations (rotations with and without mask, map transformations, named '
-        'gates, measurements of commuting lists on either coin, post-selections, copies, measurement layers) from every constructor, '
+        'gates, whole circuits (plain, layer-compiled, compiled, copied; forward and backward), measurements of commuting lists on either coin, post-selections, copies, measurement layers) from every constructor, '
         'N<=6, all ranks; exhaustive closure of the reachable tableau space for N=1 (quick) and N<=2 (thorough) under rotations and '
         'tape-controlled measurements. The invariant is evaluated on the implementation after every call. non-trivial = history '
         'containing a measurement; distinct = distinct (start, history).')
@@ -68,7 +68,7 @@ def walk(ctx, impl, rng):
     has_meas = False
     for step in range(rng.choice([3, 6, 10, 16])):
         rows, r = impl.ops_of(st), int(st.r)
-        op = rng.choice(['rotate', 'rotate-mask', 'transform', 'transform-mask', 'gate', 'measure', 'measure', 'postselect', 'copy', 'mlayer', 'statemap', 'statemap'])
+        op = rng.choice(['rotate', 'rotate-mask', 'transform', 'transform-mask', 'gate', 'measure', 'measure', 'postselect', 'copy', 'mlayer', 'statemap', 'statemap', 'circuit', 'circuit'])
         ctx.count('op=' + op)
         try:
             if op == 'rotate':
@@ -107,6 +107,28 @@ def walk(ctx, impl, rng):
                 d = CU.rand_gate(rng, n, kinds=('named', 'cnot', 'gen'))
                 hist.append((op, d))
                 CU.impl_gate(impl, d).forward(st)
+            elif op == 'circuit':
+                # a whole circuit of deterministic gates, in one of its configurations (layers packed by take; compiled or not), either direction
+                prog = CU.rand_program(rng, n, rng.randrange(2, 9), kinds=('named', 'cnot', 'gen', 'fmap'))
+                conf = rng.choice(['plain', 'layers', 'compiled', 'copy-compiled'])
+                cls = rng.choice(['CliffordCircuit', 'Circuit'])
+                back = rng.random() < 0.3
+                hist.append((op, prog, conf, cls, back))
+                c = getattr(CI, cls)(n)
+                for d in prog:
+                    c.take(CU.impl_gate(impl, d))
+                if conf == 'copy-compiled' and hasattr(c, 'copy'):      # Circuit has no copy()
+                    c = c.copy()
+                if conf == 'layers':
+                    for layer in c.layers_forward():
+                        layer.compile(n)
+                elif conf.endswith('compiled'):
+                    c.compile()
+                ctx.count('circuit:' + conf)
+                if back:
+                    c.backward(st)
+                else:
+                    c.forward(st)
             elif op == 'measure':
                 obs, kinds = G.commuting_list(rng, rows, n, r, rng.randrange(1, 4))
                 sd = rng.randrange(1 << 30)
